@@ -72,7 +72,7 @@ def register(R):
                    ]}},
                ensures=[
                    ("C01", "self._total_samples == old(self._total_samples) + 1"),
-                   ("C01", "self._samples_since_reset == (1 if %s else old(self._samples_since_reset) + 1)" % FRESH),
+                   ("C01,C02", "self._samples_since_reset == (1 if %s else old(self._samples_since_reset) + 1)" % FRESH),
                    ("C04", "self._mean == " + MEAN1),
                    ("C04", "self._sum == " + SUM1),
                    ("C04", "self._min == " + MIN1),
